@@ -49,13 +49,6 @@ Proof.
     + intros H. inversion H; subst. split; assumption.
 Qed.
 
-Lemma precb_iff : forall l a b, precb l a b = true <-> prec l a b.
-Proof.
-  induction l as [|x t IH]; intros a b; simpl.
-  - split; [discriminate | tauto].
-  - rewrite orb_true_iff, andb_true_iff, Pos.eqb_eq, memb_In, IH. tauto.
-Qed.
-
 Lemma nodes_eqb_eq : forall a b, nodes_eqb a b = true <-> a = b.
 Proof.
   induction a as [|x a IH]; destruct b as [|y b]; simpl; split; intros H; try discriminate; try reflexivity.
@@ -73,6 +66,16 @@ Proof.
   destruct H as [[H1 H2] | H].
   - subst. tauto.
   - apply IH in H. tauto.
+Qed.
+
+Lemma precb_iff : forall l a b, precb l a b = true <-> prec l a b.
+Proof.
+  induction l as [|x t IH]; intros a b; simpl.
+  - split; [discriminate | tauto].
+  - destruct (Pos.eqb x a) eqn:E.
+    + apply Pos.eqb_eq in E. subst. rewrite memb_In. split; [tauto|].
+      intros [[_ H] | H]; [exact H | apply (prec_In t a b H)].
+    + apply Pos.eqb_neq in E. rewrite IH. tauto.
 Qed.
 
 Lemma prec_app : forall x y a b,
@@ -190,13 +193,13 @@ Definition desc_inv (g : graph) (r : node) (seen D : list node) : Prop :=
   forall y, In y D <-> y = r \/ (In y seen /\ reach g r y).
 
 Lemma desc_test_iff : forall g x D,
-  existsb (fun e => Pos.eqb (snd e) x && memb (fst e) D) g = true <-> exists p, In (p, x) g /\ In p D.
+  existsb (fun e => if Pos.eqb (snd e) x then memb (fst e) D else false) g = true <-> exists p, In (p, x) g /\ In p D.
 Proof.
   intros g x D. rewrite existsb_exists. split.
-  - intros [[p q] [He Ht]]. simpl in Ht. apply andb_true_iff in Ht. destruct Ht as [Hq Hp].
-    apply Pos.eqb_eq in Hq. apply memb_In in Hp. subst. exists p. tauto.
+  - intros [[p q] [He Ht]]. simpl in Ht. destruct (Pos.eqb q x) eqn:Hq; [|discriminate].
+    apply Pos.eqb_eq in Hq. apply memb_In in Ht. subst. exists p. tauto.
   - intros [p [He Hp]]. exists (p, x). split; [exact He|]. simpl.
-    rewrite Pos.eqb_refl. simpl. apply memb_In. exact Hp.
+    rewrite Pos.eqb_refl. apply memb_In. exact Hp.
 Qed.
 
 Lemma desc_pass_inv : forall g r l2 l1 D,
@@ -206,7 +209,7 @@ Proof.
   - rewrite app_nil_r. exact Hinv.
   - simpl.
     assert (Heq : l1 ++ x :: t = (l1 ++ [x]) ++ t) by (rewrite <- app_assoc; reflexivity).
-    destruct (existsb (fun e => Pos.eqb (snd e) x && memb (fst e) D) g) eqn:Htest.
+    destruct (existsb (fun e => if Pos.eqb (snd e) x then memb (fst e) D else false) g) eqn:Htest.
     + rewrite Heq. apply IH; [rewrite <- Heq; exact Ht|].
       apply desc_test_iff in Htest. destruct Htest as [p [Hpx HpD]].
       assert (Hrx : reach g r x).
@@ -673,19 +676,18 @@ Lemma lifted_indepb_iff : forall g loops pre post, topo g pre ->
    forall r x, In r loops -> prec pre r x -> prec post x r -> ~ reach g r x).
 Proof.
   intros g loops pre post Ht. unfold lifted_indepb. cbv zeta.
-  change (fun r => forallb (fun x => negb (precb pre r x && precb post x r) || negb (descb_in (desc_set g pre r) r x)) pre)
-    with (fun r => forallb (fun x => negb (precb pre r x && precb post x r) || negb (descb g pre r x)) pre).
   rewrite forallb_forall. split.
   - intros H r x Hr Hrx Hxr Hreach.
     specialize (H r Hr). rewrite forallb_forall in H.
     specialize (H x (proj2 (prec_In _ _ _ Hrx))).
-    apply orb_true_iff in H. destruct H as [H | H].
-    + apply negb_true_iff in H. apply andb_false_iff in H.
-      destruct H as [H | H]; [apply precb_iff in Hrx | apply precb_iff in Hxr]; congruence.
-    + apply negb_true_iff in H. apply (descb_iff g pre r x Ht) in Hreach. congruence.
+    change (descb_in (desc_set g pre r) r x) with (descb g pre r x) in H.
+    apply precb_iff in Hrx. apply precb_iff in Hxr. rewrite Hrx, Hxr in H.
+    apply negb_true_iff in H. apply (descb_iff g pre r x Ht) in Hreach. congruence.
   - intros H r Hr. apply forallb_forall. intros x Hx.
-    destruct (precb pre r x && precb post x r) eqn:E; [|reflexivity]. simpl.
-    apply andb_true_iff in E. destruct E as [E1 E2]. apply precb_iff in E1. apply precb_iff in E2.
+    change (descb_in (desc_set g pre r) r x) with (descb g pre r x).
+    destruct (precb pre r x) eqn:E1; [|reflexivity].
+    destruct (precb post x r) eqn:E2; [|reflexivity].
+    apply precb_iff in E1. apply precb_iff in E2.
     apply negb_true_iff. destruct (descb g pre r x) eqn:Ed; [|reflexivity].
     exfalso. apply (H r x Hr E1 E2). apply (descb_iff g pre r x Ht). exact Ed.
 Qed.
@@ -940,3 +942,104 @@ Proof.
   apply trans_nodes_total in Hbal. destruct Hbal as [ts Hts].
   exists ts. split; [exact Hts | apply trans_nodes_faithful; exact Hts].
 Qed.
+
+(* ------------------------------------------------------------------------- *)
+(* Examples: the hypotheses are met by an object the real compiler produced   *)
+(* ------------------------------------------------------------------------- *)
+
+(* Flow graph of  Z[m, n] = A[k, m] * B[k, n]  with K: [uniform_occupancy(A.4), uniform_occupancy(A.2)],
+   loop order [K2, M, K1, N, K0] (two dynamic partitionings sitting between loops), as returned by
+   FlowGraph.get_graph(); ex_pre is a topological order of it (seeded "lazy" tie-break: every
+   statement as late as possible), ex_post is what the real FlowGraph.__hoist made of ex_pre. *)
+(* nodes: 1=(LoopNode, K2);
+   2=(LoopNode, M);
+   3=(LoopNode, K1);
+   4=(LoopNode, N);
+   5=(LoopNode, K0);
+   6=(OtherNode, Body);
+   7=(EndLoopNode, K0);
+   8=(EndLoopNode, N);
+   9=(EndLoopNode, K1);
+   10=(EndLoopNode, M);
+   11=(EndLoopNode, K2);
+   12=(OtherNode, Footer);
+   13=(OtherNode, Graphics);
+   14=(OtherNode, Output);
+   15=(GetRootNode, Z, ['M', 'N']);
+   16=(PartNode, A, ('K',));
+   17=(PartNode, A, ('K1I',));
+   18=(SwizzleNode, A, ['K', 'M'], loop-order);
+   19=(GetRootNode, A, ['K', 'M']);
+   20=(PartNode, B, ('K',));
+   21=(PartNode, B, ('K1I',));
+   22=(SwizzleNode, B, ['K', 'N'], loop-order);
+   23=(GetRootNode, B, ['K', 'N']);
+   24=(FromFiberNode, A, K);
+   25=(SwizzleNode, A, ['K2', 'M', 'K1I'], loop-order);
+   26=(GetRootNode, A, ['K2', 'M', 'K1I']);
+   27=(FromFiberNode, B, K);
+   28=(SwizzleNode, B, ['K2', 'K1I', 'N'], loop-order);
+   29=(GetRootNode, B, ['K2', 'K1I', 'N']);
+   30=(FromFiberNode, B, K1I);
+   31=(SwizzleNode, B, ['K1', 'N', 'K0'], loop-order);
+   32=(GetRootNode, B, ['K1', 'N', 'K0']);
+   33=(FromFiberNode, A, K1I);
+   34=(SwizzleNode, A, ['K1', 'K0'], loop-order);
+   35=(GetRootNode, A, ['K1', 'K0']) *)
+Definition ex_g : graph := [(7%positive, 8%positive); (9%positive, 10%positive); (11%positive, 12%positive); (10%positive, 11%positive); (8%positive, 9%positive); (24%positive, 16%positive); (33%positive, 17%positive); (27%positive, 20%positive); (30%positive, 21%positive); (19%positive, 24%positive); (35%positive, 3%positive); (35%positive, 21%positive); (26%positive, 1%positive); (26%positive, 20%positive); (23%positive, 27%positive); (32%positive, 3%positive); (29%positive, 1%positive); (15%positive, 2%positive); (5%positive, 6%positive); (3%positive, 5%positive); (3%positive, 4%positive); (1%positive, 30%positive); (1%positive, 2%positive); (2%positive, 33%positive); (2%positive, 3%positive); (2%positive, 4%positive); (4%positive, 5%positive); (4%positive, 6%positive); (6%positive, 7%positive); (13%positive, 1%positive); (14%positive, 15%positive); (14%positive, 13%positive); (16%positive, 17%positive); (16%positive, 25%positive); (17%positive, 34%positive); (20%positive, 21%positive); (20%positive, 28%positive); (21%positive, 31%positive); (18%positive, 19%positive); (18%positive, 13%positive); (34%positive, 35%positive); (25%positive, 26%positive); (22%positive, 23%positive); (22%positive, 13%positive); (31%positive, 32%positive); (28%positive, 29%positive)].
+Definition ex_loops : list node := [1%positive; 2%positive; 3%positive; 4%positive; 5%positive].
+Definition ex_body : node := 6%positive.
+Definition ex_ends : list node := [11%positive; 10%positive; 9%positive; 8%positive; 7%positive].
+Definition ex_pre : list node := [18%positive; 22%positive; 23%positive; 19%positive; 14%positive; 24%positive; 16%positive; 13%positive; 25%positive; 26%positive; 27%positive; 20%positive; 28%positive; 29%positive; 1%positive; 15%positive; 2%positive; 33%positive; 17%positive; 34%positive; 30%positive; 35%positive; 21%positive; 31%positive; 32%positive; 3%positive; 4%positive; 5%positive; 6%positive; 7%positive; 8%positive; 9%positive; 10%positive; 11%positive; 12%positive].
+Definition ex_post : list node := [18%positive; 22%positive; 23%positive; 19%positive; 14%positive; 24%positive; 16%positive; 13%positive; 25%positive; 26%positive; 27%positive; 20%positive; 28%positive; 29%positive; 15%positive; 1%positive; 30%positive; 2%positive; 33%positive; 17%positive; 34%positive; 35%positive; 21%positive; 31%positive; 32%positive; 3%positive; 4%positive; 5%positive; 6%positive; 7%positive; 8%positive; 9%positive; 10%positive; 11%positive; 12%positive].
+
+Definition edge_memb (e : node * node) (g : graph) : bool :=
+  existsb (fun f => Pos.eqb (fst e) (fst f) && Pos.eqb (snd e) (snd f)) g.
+
+Lemma edges_incl_b : forall c g,
+  forallb (fun e => edge_memb e g) c = true -> forall a b, In (a, b) c -> In (a, b) g.
+Proof.
+  intros c g H a b Hab. rewrite forallb_forall in H. specialize (H (a, b) Hab).
+  unfold edge_memb in H. apply existsb_exists in H. destruct H as [[p q] [Hpq He]]. simpl in He.
+  apply andb_true_iff in He. destruct He as [E1 E2]. apply Pos.eqb_eq in E1. apply Pos.eqb_eq in E2.
+  subst. exact Hpq.
+Qed.
+
+Example ex_pre_topo : topo ex_g ex_pre.
+Proof. apply topo_okb_iff. vm_compute. reflexivity. Qed.
+
+(* the hoist pass really moves statements here (GetRoot of Z above Loop K2, the Tensor.fromFiber of
+   B's K1I fiber above Loop M) and the model computes exactly the list the code computed *)
+Example ex_hoist_is_code : hoist ex_g ex_loops ex_pre = ex_post /\ ex_post <> ex_pre.
+Proof. split; [vm_compute; reflexivity | intros H; vm_compute in H; discriminate]. Qed.
+
+Example ex_chain_in_graph : forall a b,
+  In (a, b) (chain_edges (chain ex_loops ex_body ex_ends)) -> In (a, b) ex_g.
+Proof. apply edges_incl_b. vm_compute. reflexivity. Qed.
+
+(* all hypotheses of hoisted_order_ok hold for this object, hence all its conclusions *)
+Example ex_hoisted_order_ok :
+  Permutation ex_post ex_pre /\ topo ex_g ex_post /\
+  filter (fun x => memb x (chain ex_loops ex_body ex_ends)) ex_post = chain ex_loops ex_body ex_ends /\
+  exists ts, trans_nodes (classify ex_loops ex_ends) ex_post = Some ts /\
+             flat_forest 0 ts = toks (classify ex_loops ex_ends) 0 ex_post.
+Proof.
+  destruct ex_hoist_is_code as [E _]. rewrite <- E.
+  apply (hoisted_order_ok ex_g ex_loops ex_body ex_ends ex_pre).
+  - exact ex_pre_topo.
+  - vm_compute. tauto.
+  - reflexivity.
+  - exact ex_chain_in_graph.
+Qed.
+
+(* the specification checker accepts the code's list, and rejects a list in which the
+   Tensor.fromFiber of B's K1I fiber (node 30, bound by Loop K2 = node 1) is lifted above Loop K2 *)
+Example ex_spec_accepts : hoist_spec_okb ex_g ex_loops ex_pre ex_post = true.
+Proof. vm_compute. reflexivity. Qed.
+
+Definition ex_bad_post : list node :=
+  [18; 22; 23; 19; 14; 24; 16; 13; 25; 26; 27; 20; 28; 29; 15; 30; 1; 2; 33; 17; 34; 35; 21; 31; 32; 3; 4; 5; 6; 7; 8; 9; 10; 11; 12]%positive.
+
+Example ex_spec_rejects : hoist_spec_okb ex_g ex_loops ex_pre ex_bad_post = false /\
+  first_bad_edge ex_g ex_bad_post = "1>30"%string.
+Proof. split; vm_compute; reflexivity. Qed.
